@@ -186,3 +186,65 @@ def alpha_locals(fn: FuncInfo, text: str) -> str:
     for i in range(0, len(parts), 2):
         parts[i] = pat.sub(lambda m: f"L{idx[m.group(1)]}", parts[i])
     return "".join(parts)
+
+
+# ----------------------------------------------------------------------------- method rebinding / memoisation
+CACHE_WRAPPERS = ("functools.lru_cache", "functools.cache", "functools.cached_property")
+
+
+def _is_cache_expr(p: Program, mod: Module, e: ast.AST) -> bool:
+    for n in ast.walk(e):
+        if isinstance(n, (ast.Name, ast.Attribute)):
+            r = p.resolve_dotted(mod, n)
+            if isinstance(r, tuple) and r[0] == "ext" and r[1] in CACHE_WRAPPERS:
+                return True
+    return False
+
+
+def method_rebinds(p: Program) -> List[Tuple[FuncInfo, ast.AST, ClassInfo, str, FuncInfo, bool]]:
+    """Every store `self.X = ...` / `cls.X = ...` / `setattr(self, 'X', ...)` where X names a METHOD of the class, of a base
+    or of a subclass: (function containing the store, node, class, X, the shadowed method, value is a functools cache).
+    Such a store makes the statically resolved callee of `self.X(...)` wrong, so every check must know about it."""
+    if hasattr(p, "_rebinds"):
+        return p._rebinds  # type: ignore[attr-defined]
+    out = []
+    for fn in p.all_functions():
+        ci = fn.cls
+        f = fn
+        while ci is None and f.parent is not None:
+            f = f.parent
+            ci = f.cls
+        if ci is None:
+            continue
+        related = [ci] + [c for c in p.mro(ci) if isinstance(c, ClassInfo)] + list(p.subclasses(ci))
+        for n in ast.walk(fn.node):
+            tg: List[Tuple[str, ast.AST]] = []
+            if isinstance(n, (ast.Assign, ast.AnnAssign, ast.AugAssign)):
+                val = n.value
+                for t in (n.targets if isinstance(n, ast.Assign) else [n.target]):
+                    if isinstance(t, ast.Attribute) and isinstance(t.value, ast.Name) and t.value.id in ("self", "cls"):
+                        tg.append((t.attr, val))
+            elif isinstance(n, ast.Call) and isinstance(n.func, ast.Name) and n.func.id == "setattr" and len(n.args) == 3 \
+                    and isinstance(n.args[0], ast.Name) and n.args[0].id in ("self", "cls") and isinstance(n.args[1], ast.Constant):
+                tg.append((str(n.args[1].value), n.args[2]))
+            for attr, val in tg:
+                seen = set()
+                for c in related:
+                    m = p.find_method(c, attr)
+                    if m is not None and m.fq not in seen and "property" not in " ".join(m.decorators):
+                        seen.add(m.fq)
+                        out.append((fn, n, c, attr, m, val is not None and _is_cache_expr(p, fn.module, val)))
+    p._rebinds = out  # type: ignore[attr-defined]
+    return out
+
+
+def memoised(p: Program, fn: FuncInfo) -> List[Tuple[str, str]]:
+    """(location, how) for every functools cache wrapped around `fn`: as a decorator or by rebinding the method."""
+    out = []
+    for d in getattr(fn.node, "decorator_list", []):
+        if _is_cache_expr(p, fn.module, d):
+            out.append((f"{fn.module.relpath}:{d.lineno}", f"@{ast.unparse(d)}"))
+    for site_fn, node, c, attr, m, is_cache in method_rebinds(p):
+        if m.fq == fn.fq and is_cache:
+            out.append((where(site_fn, node), " ".join(ast.unparse(node).split())[:100]))
+    return out
